@@ -445,7 +445,7 @@ PROPS = {
                   '(lifted by R5); bounded differential check of whole matches on the real code',
         claim='Deductive proof (Verus/Z3) on the real code, for every arm list, integer type, width, builder state and input assignment, of the integer layer '
               'where the boundary arithmetic of the property lives. (1) pattern typing: expect_pattern_in_range accepts a literal / range pattern exactly when '
-              'both bounds are values of the matched type. (2) exhaustiveness: split_unsigned_range / split_signed_range return constructors that cover every '
+              'both bounds are values of the matched type, and the four integer arms of the real UntypedPattern::type_check (lifted, R5f) accept a literal / range pattern only for a number type (a signed one for signed patterns) whose value range contains the bounds, and return the pattern unchanged. (2) exhaustiveness: split_unsigned_range / split_signed_range return constructors that cover every '
               'value of [min, max], each non-empty and homogeneous (no arm head - literal, inclusive range, exclusive range stored as end-1, binding, signed '
               'or unsigned - distinguishes two values of one constructor); the integer arms of specialize keep an arm exactly when its head matches every '
               'value of the constructor; hence (lemma) for every returned constructor and each of its values v, specialize keeps exactly the arms whose head '
@@ -477,7 +477,7 @@ PROPS = {
         title='match on integers: pattern bounds checked against the type, constructor splitting covers / is homogeneous, specialize and the lowering of '
               'literal and range patterns exact, specialization by structured constructors, first matching clause decides (proved); usefulness recursion and lowering of structured patterns by bounded differential',
         unverified=['usefulness, split_ctor (the recursion over pattern stacks that composes splitting and specialization): bounded differential only',
-                    'Pattern::type_check (that every integer pattern is passed to expect_pattern_in_range), range pattern parsing',
+                    'Pattern::type_check for tuple / struct / enum patterns, range pattern parsing',
                     'struct arm and the field part of the enum arm of TypedPattern::compile (HashMap of field patterns; zip over the variant types), bindings of the selected arm (environment merge mux_envs): bounded differential only'],
     ),
 }
